@@ -793,7 +793,37 @@ def search(payload):
     return {"evaluations": n, "failures": fails[:8], "known_hits": [], "samples": samples or [{"text": fails[0].get("text")}]}
 
 
+def _long_inputs(consider):
+    """texts beyond every small bound: long flat chains (also with one malformed piece), runs of 33-48 operands, names that start like the
+    keywords, long names"""
+    names = ["alpha", "beta", "gamma", "delta", "eps", "zeta", "eta", "theta", "iota", "kappa", "mu", "nu", "xi", "omicron", "rho", "sigma"]
+    for op in ("|", "&", "^"):
+        for k in (12, 16):
+            ts = []
+            for i in range(k):
+                ts += ([op] if i else []) + [names[i % len(names)] + ("x" * (i // len(names)))]
+            consider(ts, " ".join(ts))
+            for bad_at in (6, k - 1):
+                bad = list(ts)
+                bad.insert(2 * bad_at, op)                       # a doubled operator
+                consider(bad, " ".join(bad))
+            consider(ts + [op], " ".join(ts + [op]))           # trailing operator
+            consider(ts[:8] + ["~", op] + ts[9:], " ".join(ts[:8] + ["~", op] + ts[9:]))     # a lone ~ piece
+    for op in ("|", "&", "^"):
+        for k in (33, 34, 40, 48):
+            ts = []
+            for i in range(k):
+                ts += ([op] if i else []) + ["v" + "abcdefghijklmnopqrstuvwxyz"[i % 26] + "abcdefghijklmnopqrstuvwxyz"[i // 26]]
+            consider(ts, " ".join(ts))
+    for text in ("trueish", "falsePositive & alarm", "~truex | y", "truefalse", "falsey ^ truthy", "trueTRUE | FALSEfalse", "untrue & isfalse"):
+        consider(tokenize(text), text)
+    long_a, long_b, long_c = "engineTemperatureWithinNominalOperatingRange", "coolantPressureWithinNominalOperatingRange", "manualOverrideEngagedByOperator"
+    for ts in ([long_a, "&", long_b, "^", long_c], [long_a, "^", long_b, "&", long_c], [long_a, "&", long_b, "|", long_c, "^", long_a], ["~", long_a, "&", "(", long_b, "|", long_c, ")"]):
+        consider(ts, " ".join(ts))
+
+
 def _search_phases(rng, deep, ex, lang_n, n_long, n_mut, n_chars, consider, fails, samples):
+    _long_inputs(consider)
     # 1. every string of the language up to lang_n, shortest first (so the first failure is a minimal one)
     pool = []
     for k in range(1, lang_n + 1):
